@@ -27,6 +27,9 @@ type c12Step struct {
 type c12Params struct {
 	TimeoutSec int         `json:"timeout_sec"`
 	Backups    bool        `json:"backups"`
+	// a stray "zz-junk.backup" file lies in every shard directory: every backup attempt
+	// of the idle unload then reports an error (the unload must still complete)
+	BackupObstacle bool `json:"backup_obstacle,omitempty"`
 	CacheSize  int64       `json:"cache_size"`
 	NShards    int         `json:"n_shards"`
 	Tasks      [][]c12Step `json:"tasks"`
@@ -39,7 +42,7 @@ func init() { Register(c12{}) }
 func (c12) ID() string { return "C12" }
 
 func (c12) Rule() string {
-	return "each run = the real ShardManager with real shards on real bbolt files under the fake clock: 2-4 request tasks issue DoWithShard calls (callback = yields + Info / small insert / search) on 1-2 shards with seeded sleeps in between, 0-2 tasks call DeleteCollectionShards, idle timeout 1-3 simulated seconds, backups on or off; the scheduler interleaves at every lock, channel, timer and storage operation and may advance simulated time at any step, so the idle timer fires during requests and during deletions. Oracle: no storage operation on a closed store and no callback on a closed shard (storage proxy), a database file is never open twice at once (registry), no directory removed while a store below it is open (file-system hook), DoWithShard fails only with the clean 'already closed' / 'could not load shard' errors, no deadlock (lock-waiter tracking; simulated time may advance freely), and after the last fault a request on every shard completes successfully within a bounded number of steps. Non-trivial: an idle unload or a deletion happened while another task was between load and completion of a request. Distinct: trace hash."
+	return "each run = the real ShardManager with real shards on real bbolt files under the fake clock: 2-4 request tasks issue DoWithShard calls (callback = yields + Info / small insert / search) on 1-2 shards with seeded sleeps in between, 0-2 tasks call DeleteCollectionShards, idle timeout 1-3 simulated seconds, backups on or off (and, in half of the runs with backups, a stray file that makes every backup attempt report an error); the scheduler interleaves at every lock, channel, timer and storage operation and may advance simulated time at any step, so the idle timer fires during requests and during deletions. Oracle: no storage operation on a closed store and no callback on a closed shard (storage proxy), a database file is never open twice at once (registry), no directory removed while a store below it is open (file-system hook), DoWithShard fails only with the clean 'already closed' / 'could not load shard' errors, no deadlock (lock-waiter tracking; simulated time may advance freely), and after the last fault a request on every shard completes successfully within a bounded number of steps. Non-trivial: an idle unload or a deletion happened while another task was between load and completion of a request. Distinct: trace hash."
 }
 
 func (c12) Generate(r *rand.Rand, tier string) (sim.Config, any) {
@@ -48,6 +51,7 @@ func (c12) Generate(r *rand.Rand, tier string) (sim.Config, any) {
 	cfg.TimeJumpProb = pick(r, []float64{0, 0.02, 0.05, 0.15})
 	cfg.IdleLimitSec = 3600
 	p := c12Params{TimeoutSec: 1 + r.IntN(3), Backups: r.IntN(2) == 0, CacheSize: pick(r, []int64{-1, 0, 5000}), NShards: 1 + r.IntN(2)}
+	p.BackupObstacle = p.Backups && r.IntN(2) == 0
 	nreq := 2 + r.IntN(3)
 	for t := 0; t < nreq; t++ {
 		var steps []c12Step
@@ -155,6 +159,9 @@ func (c12) Execute(env *Env) {
 			inRequest++
 			defer func() { inRequest-- }()
 			return sm.DoWithShard(col, fmt.Sprintf("shard%d", shardIdx), func(s *shard.Shard) error {
+				if p.BackupObstacle {
+					os.WriteFile(filepath.Join(root, cluster.USERCOLSDIR, col.UserId, col.Id, fmt.Sprintf("shard%d", shardIdx), "zz-junk.backup"), []byte("x"), 0644)
+				}
 				for i := 0; i < yields; i++ {
 					sim.YieldAlways("c12:in-request")
 				}
